@@ -111,7 +111,8 @@ def generate(seed, run, tier):
         enabled = [k for k in FAULT_KINDS if crng.random() < 0.6]
     fault_rate = crng.choice([0.02, 0.05, 0.1, 0.15]) if enabled else 0.0
     str_ok = all(isinstance(t, str) and len(t) == 1 for t in alphabet)
-    forms = ["list", "tuple", "gen"] + (["str"] if str_ok else [])
+    bytes_ok = any(isinstance(t, int) and not isinstance(t, bool) and 0 <= t < 256 for t in alphabet)
+    forms = ["list", "tuple", "gen"] + (["str"] if str_ok else []) + (["bytes"] if bytes_ok else [])
     forms = [f for f in forms if crng.random() < 0.7] or ["list"]
     # observation schedule (swarm): a full sweep after every mutation would
     # always be the first traversal after a write and could mask state kept
@@ -249,6 +250,8 @@ def make_key(tokens, form):
         return tuple(tokens)
     if form == "str" and all(isinstance(t, str) and len(t) == 1 for t in tokens):
         return "".join(tokens)
+    if form == "bytes" and all(isinstance(t, int) and not isinstance(t, bool) and 0 <= t < 256 for t in tokens):
+        return bytes(tokens)  # a bytes key is the sequence of its integer tokens
     if form == "gen":
         return (t for t in tokens)
     return list(tokens)
